@@ -1,0 +1,136 @@
+//! Final well-formedness gate: every path written into the compiled story
+//! must lead to content that exists.
+//!
+//! The validator works on the parsed source and does not see every form of
+//! reference (tunnels inside sequences, threads in choice text, read counts of
+//! labels that were never declared, calls of functions that are defined
+//! nowhere, ...). Whatever slips through would otherwise surface as a story
+//! that loads and then fails - or silently misbehaves - at runtime. This pass
+//! walks the emitted JSON the way the runtime resolves paths and turns a
+//! dangling reference into a compile error.
+
+use serde_json::Value;
+
+use crate::error::CompilerError;
+
+/// Keys of objects whose string value is a path into the story.
+const PATH_KEYS: [&str; 6] = ["->", "f()", "->t->", "*", "CNT?", "^->"];
+
+pub(crate) fn check(story: &Value) -> Result<(), CompilerError> {
+    let Some(root) = story.get("root") else {
+        return Ok(());
+    };
+    let mut ancestors: Vec<&Value> = Vec::new();
+    check_container(root, root, &mut ancestors)
+}
+
+fn check_container<'a>(
+    container: &'a Value,
+    root: &'a Value,
+    ancestors: &mut Vec<&'a Value>,
+) -> Result<(), CompilerError> {
+    let Some(items) = container.as_array() else {
+        return Ok(());
+    };
+    ancestors.push(container);
+    let content_len = items.len().saturating_sub(1);
+    for item in &items[..content_len] {
+        match item {
+            Value::Array(_) => check_container(item, root, ancestors)?,
+            Value::Object(object) => {
+                // `"var": true`: the string names a variable, not a path
+                if object.get("var").and_then(Value::as_bool) == Some(true) {
+                    continue;
+                }
+                for key in PATH_KEYS {
+                    if let Some(path) = object.get(key).and_then(Value::as_str)
+                        && !resolves(path, root, ancestors)
+                    {
+                        ancestors.pop();
+                        return Err(CompilerError::invalid_source(format!(
+                            "target not found: '{path}' (reference '{key}')"
+                        )));
+                    }
+                }
+            }
+            _ => {}
+        }
+    }
+    if let Some(Value::Object(named)) = items.last() {
+        for (name, sub) in named {
+            if !name.starts_with('#') && sub.is_array() {
+                check_container(sub, root, ancestors)?;
+            }
+        }
+    }
+    ancestors.pop();
+    Ok(())
+}
+
+/// Does `path` lead to existing content? `ancestors` are the containers around
+/// the object that holds the path, outermost first.
+fn resolves(path: &str, root: &Value, ancestors: &[&Value]) -> bool {
+    let relative = path.starts_with('.');
+    let mut components = path.split('.').filter(|c| !c.is_empty()).peekable();
+    if components.peek().is_none() {
+        return false;
+    }
+
+    // A relative path starts at the object itself: its first step must be `^`,
+    // which leads to the container the object sits in.
+    let mut depth = ancestors.len();
+    let mut current: &Value = if relative {
+        if components.next() != Some("^") || depth == 0 {
+            return false;
+        }
+        ancestors[depth - 1]
+    } else {
+        root
+    };
+    // (while walking up, `depth` is the number of ancestors still above us)
+    let mut walking_up = relative;
+
+    for component in components {
+        if component == "^" {
+            if !walking_up || depth < 2 {
+                return false;
+            }
+            depth -= 1;
+            current = ancestors[depth - 1];
+            continue;
+        }
+        walking_up = false;
+        let Some(items) = current.as_array() else {
+            return false; // only containers have children
+        };
+        let content_len = items.len().saturating_sub(1);
+        let next = if let Ok(index) = component.parse::<usize>() {
+            items[..content_len].get(index)
+        } else {
+            named_child(items, content_len, component)
+        };
+        match next {
+            Some(value) => current = value,
+            None => return false,
+        }
+    }
+    true
+}
+
+fn named_child<'a>(items: &'a [Value], content_len: usize, name: &str) -> Option<&'a Value> {
+    if let Some(Value::Object(named)) = items.last()
+        && let Some(sub) = named.get(name)
+        && !name.starts_with('#')
+        && sub.is_array()
+    {
+        return Some(sub);
+    }
+    // a container in the content that carries its own name (`"#n"`)
+    items[..content_len].iter().find(|item| {
+        item.as_array()
+            .and_then(|sub| sub.last())
+            .and_then(|last| last.get("#n"))
+            .and_then(Value::as_str)
+            == Some(name)
+    })
+}
